@@ -4,7 +4,9 @@ authenticated with; C17: field lengths are 16-bit).
 -/
 import NtpVerif.Proofs.ServerParse
 import NtpVerif.Proofs.WireAuth3
+import NtpVerif.Proofs.WireRT9
 import NtpVerif.Model.ServerReq
+import NtpVerif.Proofs.ServerFit
 
 namespace NtpVerif.ServerParse
 open NtpVerif.Wire
@@ -398,6 +400,250 @@ theorem parseR_uid {dec : Dec} {ctx : Ctx} {data : Bytes} {p : Packet} {c : Opti
               · cases h; exact parseEF_uid hy
               · split at h
                 · cases h; exact parseEF_uid hy
+                · cases h
+        · cases h
+
+end NtpVerif.ServerParse
+
+namespace NtpVerif.ServerParse
+open NtpVerif.Wire NtpVerif.Server
+
+/-- octets a parsed field accounts for in the request -/
+def fw (f : EF) : Nat := (fieldOf f).wire
+def fwSum (fs : List EF) : Nat := (fs.map fw).sum
+def fwT (st : EFState) : Nat := fwSum st.ef.untrusted + fwSum st.ef.authenticated
+
+theorem next4_eq_nm4 (n : Nat) : RespSize.next4 n = nm4 n := rfl
+
+theorem fwSum_append (a b : List EF) : fwSum (a ++ b) = fwSum a + fwSum b := by
+  simp [fwSum, List.sum_append]
+
+/-- a decoded field accounts for no more than the wire length of the frame it was decoded from -/
+theorem decode_fw {ty : Nat} {msg : (List UInt8)} {ver : Ver} {f : EF} (h : decode ty msg ver = .ok f) :
+    fw f ≤ nm4 (4 + msg.length) := by
+  unfold decode at h
+  repeat' split at h
+  all_goals first
+    | (simp [perr, rpanic] at h; done)
+    | (simp only [Except.ok.injEq] at h; subst h
+       simp only [fw, fieldOf, Field.wire, next4_eq_nm4]
+       first
+         | exact Nat.le_refl _
+         | (unfold nm4; split <;> split <;> omega))
+
+/-- items of a stream follow one another: each starts where the previous one ended -/
+def Consec : Nat → List Item → Prop
+  | _, [] => True
+  | pos, .field off _ _ wl :: r => off = pos ∧ Consec (pos + wl) r
+  | _, _ :: _ => True
+
+theorem streamAux_consec (ver : Ver) (cutoff minSize : Nat) :
+    ∀ (fuel : Nat) (rem : (List UInt8)) (off : Nat), Consec off (streamAux ver cutoff minSize fuel rem off) := by
+  intro fuel
+  induction fuel with
+  | zero => intro rem off; simp [streamAux, Consec]
+  | succ n ih =>
+    intro rem off
+    rw [streamAux_succ]
+    split
+    · trivial
+    · split
+      · trivial
+      · split
+        · trivial
+        · exact ⟨rfl, ih _ _⟩
+
+theorem efStep_account {dec : Dec} {ctx : Ctx} {data : (List UInt8)} {hs : Nat} {ver : Ver} {st st' : EFState}
+    {off ty : Nat} {msg : (List UInt8)} {wl : Nat} (hwl : wl = nm4 (4 + msg.length))
+    (h : efStep dec ctx data hs ver st off ty msg wl = .ok st') :
+    fwT st' + (if ty = tyEncrypted then wl else 0) ≤ fwT st + wl := by
+  unfold efStep at h
+  simp only at h
+  split at h
+  · rename_i hty
+    simp only [hty, if_true]
+    split at h
+    · cases h
+    · split at h
+      · simp only [Except.ok.injEq] at h; subst h
+        simp [fwT, EFState.pushInvalid, fwSum_append, fwSum, fw, fieldOf, Field.wire]
+      · split at h
+        · cases h
+        · split at h
+          · simp only [Except.ok.injEq] at h; subst h
+            simp [fwT, EFState.pushInvalid, fwSum_append, fwSum, fw, fieldOf, Field.wire]
+          · cases h
+          · simp only [Except.ok.injEq] at h; subst h
+            simp only [fwT, fwSum_append]
+            simp only [fwSum, List.map_nil, List.sum_nil]
+            omega
+  · rename_i hty
+    simp only [hty, if_false]
+    split at h
+    · cases h
+    · rename_i f hf
+      simp only [Except.ok.injEq] at h; subst h
+      have := decode_fw hf
+      simp only [fwT, fwSum_append]
+      simp only [fwSum, List.map_cons, List.map_nil, List.sum_cons, List.sum_nil]
+      omega
+
+theorem efLoop_account {dec : Dec} {ctx : Ctx} {data : (List UInt8)} {hs : Nat} {ver : Ver} (lim : Nat) :
+    ∀ (items : List Item) (st st' : EFState) (pos : Nat), Consec pos items → (∀ it ∈ items, ItemOK ver lim it) →
+      st.size = pos → efLoop dec ctx data hs ver items st = .ok st' →
+      fwT st' + encItems items + pos ≤ fwT st + st'.size := by
+  intro items
+  induction items with
+  | nil =>
+    intro st st' pos _ _ hp h
+    simp only [efLoop, Except.ok.injEq] at h; subst h
+    simp [encItems, hp]
+  | cons it rest ih =>
+    intro st st' pos hc hok hp h
+    cases it with
+    | err e => simp [efLoop, perr] at h
+    | panic => simp [efLoop, rpanic] at h
+    | fuel => simp [efLoop] at h
+    | field off ty msg wl =>
+      simp only [efLoop] at h
+      split at h
+      · cases h
+      · rename_i st1 hs1
+        obtain ⟨hoff, hcr⟩ := hc
+        have hit := hok (.field off ty msg wl) (by simp)
+        have hwl : wl = nm4 (4 + msg.length) := (wireLength_some hit.1).1
+        have hsz := efStep_size hs1
+        have hacc := efStep_account hwl hs1
+        have := ih st1 st' (pos + wl) hcr (fun x hx => hok x (by simp [hx])) (by rw [hsz, hoff]) h
+        simp only [encItems]
+        omega
+
+/-- **size accounting of the extension-field area**: the parsed fields and the authenticator fields the streamer
+    framed fit into the area -/
+theorem efDeserialize_account {dec : Dec} {ctx : Ctx} {data : (List UInt8)} {hs : Nat} {ver : Ver} {r : EFResult}
+    (h : efDeserialize dec ctx data hs ver = .ok r) :
+    hs + (fwSum r.ef.untrusted + fwSum r.ef.authenticated
+      + encItems (stream (data.drop hs) (macCutoff ver) Gen.EF_V4_UNENCRYPTED_MINIMUM_SIZE ver)) ≤ data.length := by
+  unfold efDeserialize at h
+  split at h
+  · cases h
+  · rename_i body hb
+    have hbody : body = data.drop hs := by
+      unfold sliceP at hb
+      split at hb
+      · rename_i s hs'
+        simp only [Except.ok.injEq] at hb; subst hb
+        obtain ⟨_, _, h3, _⟩ := slice?_some hs'
+        rw [h3]; apply List.take_of_length_le; simp
+      · cases hb
+    split at h
+    · cases h
+    · rename_i st hst
+      split at h
+      · cases h
+      · rename_i rem hrem
+        simp only [Except.ok.injEq] at h; subst h
+        have hbound : hs + st.size ≤ data.length := by
+          unfold sliceP at hrem
+          split at hrem
+          · rename_i s hs'
+            exact (slice?_some hs').1
+          · cases hrem
+        have := efLoop_account body.length _ .init st 0 (by unfold stream; exact streamAux_consec _ _ _ _ _ _)
+          (stream_ok body _ _ ver) rfl hst
+        simp only [fwT, EFState.init, EFData.empty, fwSum, List.map_nil, List.sum_nil] at this
+        rw [← hbody]
+        simp only [fwSum]
+        omega
+
+end NtpVerif.ServerParse
+
+namespace NtpVerif.ServerParse
+open NtpVerif.Wire NtpVerif.Server
+
+theorem parseEF_account {dec : Dec} {ctx : Ctx} {data : List UInt8} {header : Wire.Header} {hs : Nat} {ver : Ver}
+    {p : Packet} {c : Option Cookie} {v : Bool} (h : parseEF dec ctx data header hs ver = .ok (p, c, v)) :
+    hs + (fwSum p.ef.untrusted + fwSum p.ef.authenticated
+      + encItems (stream (data.drop hs) (macCutoff ver) Gen.EF_V4_UNENCRYPTED_MINIMUM_SIZE ver)) ≤ data.length := by
+  unfold parseEF at h
+  simp only [bind, Except.bind, pure, Except.pure] at h
+  split at h
+  · cases h
+  · rename_i r hr
+    split at h
+    · cases h
+    · rename_i p' hp'
+      simp only [Except.ok.injEq, Prod.mk.injEq] at h
+      obtain ⟨hp, _, _⟩ := h
+      subst hp
+      rw [(constructPacket_fields hp').2]
+      exact efDeserialize_account hr
+
+/-- **size accounting of a parsed datagram**: header, the fields it was parsed into and the authenticator fields
+    (`encwOf`, computed from the bytes) fit into the datagram -/
+theorem parseR_account {dec : Dec} {ctx : Ctx} {data : List UInt8} {p : Packet} {c : Option Cookie} {v : Bool}
+    (h : parseR dec ctx data = .ok (p, c, v)) :
+    48 + (fwSum p.ef.untrusted + fwSum p.ef.authenticated) + encwOf data ≤ data.length := by
+  unfold parseR at h
+  split at h
+  · cases h
+  · rename_i b0 t
+    simp only at h
+    split at h
+    · -- v3
+      rename_i hv
+      have henc : encwOf (b0 :: t) = 0 := by simp [encwOf, hv]
+      simp only [bind, Except.bind, pure, Except.pure] at h
+      split at h
+      · cases h
+      · rename_i x hx
+        obtain ⟨hd, hs⟩ := x
+        obtain ⟨_, h48⟩ := headerV34_size hx
+        try simp only at h
+        rw [henc]
+        split at h
+        · split at h
+          · cases h
+          · split at h
+            · cases h
+            · cases h; simp only [List.length_cons] at h48; simp [fwSum, EFData.empty]; omega
+        · cases h; simp only [List.length_cons] at h48; simp [fwSum, EFData.empty]; omega
+    · split at h
+      · rename_i hv3 hv
+        have henc : encwOf (b0 :: t) = encItems (stream ((b0 :: t).drop 48) (macCutoff .v4)
+            Gen.EF_V4_UNENCRYPTED_MINIMUM_SIZE .v4) := by simp [encwOf, hv]
+        simp only [bind, Except.bind, pure, Except.pure] at h
+        split at h
+        · cases h
+        · rename_i x hx
+          obtain ⟨hd, hs⟩ := x
+          obtain ⟨hs48, _⟩ := headerV34_size hx
+          try simp only at h
+          subst hs48
+          have := parseEF_account h
+          rw [henc]; omega
+      · split at h
+        · rename_i hv3 hv4 hv
+          have henc : encwOf (b0 :: t) = encItems (stream ((b0 :: t).drop 48) (macCutoff .v5)
+              Gen.EF_V4_UNENCRYPTED_MINIMUM_SIZE .v5) := by simp [encwOf, hv]
+          simp only [bind, Except.bind] at h
+          split at h
+          · cases h
+          · rename_i x hx
+            obtain ⟨hd, hs⟩ := x
+            obtain ⟨hs48, _⟩ := headerV5_size hx
+            try simp only at h
+            subst hs48
+            split at h
+            · cases h
+            · rename_i y hy
+              obtain ⟨p', c', v'⟩ := y
+              have hacc := parseEF_account hy
+              simp only at h
+              split at h
+              · cases h; rw [henc]; omega
+              · split at h
+                · cases h; rw [henc]; omega
                 · cases h
         · cases h
 
